@@ -438,3 +438,9 @@ func DataPath(e *yang.Entry) []string {
 	}
 	return out
 }
+
+// BoundedMax reports whether a list/leaf-list has a real max-elements bound
+// (goyang stores "unbounded" as the largest uint64).
+func BoundedMax(la *yang.ListAttr) bool {
+	return la != nil && la.MaxElements > 0 && la.MaxElements < 1<<31
+}
